@@ -24,8 +24,16 @@ any depth (captures = used in the subtree minus defined in the subtree).  Refuti
   source value (exact; NaN == NaN).  If one evaluator sees a difference and the other compares the same record
   equal the case is report-only (``report_only_evaluators_split``).
 
-Report-only (counted, never a verdict): cuts inside a nested body that itself captures values of an enclosing
-graph; regions of structural models whose original order is not topological (the cloner cannot build them);
+Nested bodies that capture values of enclosing graphs are cut like any other graph (the body itself is passed as
+the graph to extract from): an initializer declared in an ENCLOSING graph that the region uses - directly or only
+through a graph nested deeper - is an initializer the region needs (the result must carry it, with the same tensor);
+a value of an enclosing graph that is no initializer can never be covered (extract only accepts boundary values of
+the graph itself), so a region that needs one must be refused.  Judged structurally (no execution source for a body
+that is not closed).
+
+Report-only (counted, never a verdict): a value of an enclosing graph GIVEN as boundary input of a nested body;
+regions that reference one Graph object from two attributes (what an independent copy of an aliased graph is, is
+not settled; today the cloner refuses); regions of structural models whose original order is not topological (the cloner cannot build them);
 an initializer given as boundary input that is kept as initializer as well (input with default value - the
 statement only asks for 'every initializer they need'); a boundary input that is also produced by a needed
 multi-output node (the result then has a graph input and a node output of the same name: the reference
@@ -38,6 +46,10 @@ function body of gen_exec models and of gen_ir structural models (well scoped, n
 GRAPHS attributes), and on up to three nested graphs per root that have nested graphs of their own: every
 nested graph must be a key (the docstring promises a mapping from *each* sub-graph), and its set must equal,
 by identity, {values used in the graph or deeper that are defined in neither}; raising is a violation.
+Structural models additionally reference nested Graph OBJECTS from a second attribute (``share_subgraphs``: of the
+same node, of another node of the same graph, of a sibling nested graph, of a graph nested deeper or of an enclosing
+one; GRAPH and GRAPHS; always well scoped and acyclic) - the IR allows it and the repository's tests do it for the
+two branches of an If - so the analysis meets the same graph object on several paths with different enclosing graphs.
 
 Signatures are mechanism-level and derived from the *shrunk* cut (outputs/inputs dropped, region cut down by
 extra boundary inputs, while the same clause fails): ``extract|<clause>|<class>`` / ``implicit-usage|...``.
@@ -68,7 +80,7 @@ LEVEL = "exploration"
 RULE = ("a case is one generated model: 'exec-small' (gen_exec, 0-3 chosen features, size 0-2: graphs small enough for ALL "
         "cuts), 'exec-big' (gen_exec, default feature mix, size 2-8: nested If/Loop bodies capturing at depth 1-2, "
         "initializers, functions; random cuts) or 'ir' (gen_ir structural model, nesting depth <= 3, GRAPH and GRAPHS "
-        "attributes; structural judgement only).  One evaluation = one graph-like (graph / function / full view / sub-view / "
+        "attributes, 0-4 nested Graph objects referenced from a second attribute elsewhere in their root; structural judgement only).  One evaluation = one graph-like (graph / function / full view / sub-view / "
         "nested body) with its batch of cuts, or one capture analysis of a root graph; non-trivial = the batch contained a "
         "covered cut whose region has >= 2 nodes and needs a value captured by a nested body, or an uncovered cut (extraction); "
         "some nested graph captures a value used deeper than itself (analysis); distinct = hash of (model key, graph-like)")
@@ -85,6 +97,10 @@ ASSUMPTIONS = [
     "'raises instead' accepts any exception type; 'covered' = every value the closure reaches that has no producer in the "
     "graph-like is a given input or one of the graph-like's initializers",
     "views list all initializers of the underlying graph, so initializer-ness by container and by flag coincide",
+    "for a nested body 'initializer' includes the initializers (by container) of the graphs that enclose it; a value of an "
+    "enclosing graph cannot be given as boundary input (report-only when tried), so a region needing a non-initializer one is uncovered",
+    "a model in which one Graph object is held by several attributes is a legal IR state (no ownership link from a Graph to an "
+    "attribute exists); the shared reference is only added where every value the graph captures is visible and defined earlier",
 ]
 
 EXHAUSTIVE_MAX_VALUES = 7
@@ -121,6 +137,9 @@ def plan(tier: str) -> dict:
             "cuts_on:view": 2000 * f,
             "cuts_on:subview": 1500 * f,
             "cuts_on:nested": 1000 * f,
+            "cuts_on:nested-capturing": 2000 * f,
+            "regions_needing_enclosing_initializer": 150 * f,
+            "uncovered_class:enclosing-scope-value": 800 * f,
             "exhaustive_graphlikes": 60 * f,
             "exec_compared": 5000 * f,
             "exec_compared:ort": 300 * f,
@@ -129,9 +148,11 @@ def plan(tier: str) -> dict:
             "implicit_nested_graphs_checked": 150 * f,
             "implicit_captures_used_deeper": 15 * f,
             "implicit_nested_via:GRAPHS": 8 * f,
+            "implicit_shared_graph_objects": 20 * f,
+            "implicit_shared_capturing_graph_objects_held_by_different_graphs": 4 * f,
         },
         "min_nontrivial": 150 * f,
-        "params": {"cuts_big": 40 if quick else 48, "exec_per_graphlike": 14 if quick else 18, "ort_per_model": 6 if quick else 8,
+        "params": {"cuts_big": 40 if quick else 48, "cuts_capturing_nested": 12 if quick else 16, "exec_per_graphlike": 14 if quick else 18, "ort_per_model": 6 if quick else 8,
                    # allowance for ALL-cuts enumeration of 5..7-value graph-likes (<= 4 values: always): a start credit plus
                    # a credit per case, so that the enumeration is spread over the shard instead of eating its first minute
                    "exhaustive_start": 6000 if quick else 20000, "exhaustive_per_case": 260 if quick else 130,
@@ -876,6 +897,15 @@ def _graph_at(model: ir.Model, root: list, path: list):
     return obj
 
 
+def _used_only_below_shared(scope: OR.Scope, vid: int, occurrences: Counter) -> bool:
+    """Every use of the value below ``scope`` lies in (or below) a Graph object that several attributes reference."""
+    def clean_use(sc: OR.Scope) -> bool:  # a use reachable from sc without passing through a shared Graph object
+        if vid in sc.used:
+            return True
+        return any(occurrences[id(c.graph)] <= 1 and clean_use(c) for c in sc.children)
+    return not clean_use(scope)
+
+
 def check_implicit(ctx, model_key: dict, root_ref: list, root_graph, counts: Counter, path: list | None = None) -> bool:
     """Judge analyze_implicit_usage(root_graph).  Returns True when some capture is used deeper than its graph.
     ``path`` (non-empty) = the analysed graph is itself nested below ``root_ref``; values defined above it are then
@@ -954,6 +984,8 @@ def check_implicit(ctx, model_key: dict, root_ref: list, root_graph, counts: Cou
         extra = [v for k, v in got_ids.items() if k not in captured]
         if missing:
             cls = "used-in-graph" if any(d == 0 for _v, d, _k in missing) else "used-deeper"
+            if cls == "used-deeper" and all(_used_only_below_shared(scope, id(v), occurrences) for v, _d, _k in missing):
+                cls += "|only-below-a-graph-object-referenced-twice"
             fire("implicit-usage|missing|" + cls,
                  f"nested graph {g.name!r} at {scope.path()}: missing {[(v.name, 'use depth below graph', d) for v, d, _k in missing]}; "
                  f"expected {sorted(v.name for v, _d, _k in captured.values())}, got {sorted(str(v.name) for v in got_ids.values())}")
@@ -1034,14 +1066,15 @@ def share_subgraphs(model: ir.Model, rng: random.Random, times: int) -> list[dic
                 below = a
             return not need
 
-        cands = [q for q in scopes if admits(q)]
+        # a Graph object that is itself referenced from several places gets the new reference in all of them
+        cands = [q for q in scopes if all(admits(o) for o in scopes if o.graph is q.graph)]
         if not cands:
             continue
         elsewhere = [q for q in cands if all(a is not q for a in chain(src.parent))]  # not the holder of S nor above it
         q = rng.choice(elsewhere) if elsewhere and rng.random() < 0.7 else rng.choice(cands)
         counter += 1
         attr_name = f"shared_{counter}"
-        form = rng.choice(["GRAPH", "GRAPH", "GRAPHS", "GRAPHS-twice"])
+        form = rng.choice(["GRAPH", "GRAPH", "GRAPH", "GRAPHS", "GRAPHS", "GRAPHS-twice"])
         if form == "GRAPH":
             attr = ir.AttrGraph(attr_name, src.graph)
         else:
